@@ -50,18 +50,6 @@ theorem unionMarks_eq_nil {x y : List String} : unionMarks x y = [] â†” x = [] â
 namespace Payload
 
 mutual
-/-- marker layers as the constructors build them: never an empty mark set, never a
-marker directly inside a marker (`Mark`/`WithMarks` merge into the existing layer). -/
-def markerWF : Payload â†’ Bool
-  | .marked ms r => !ms.isEmpty && !r.isMarked && markerWF r
-  | .seq vs | .smap _ vs | .sset _ vs => markerWFL vs
-  | _ => true
-def markerWFL : List Payload â†’ Bool
-  | [] => true
-  | v :: vs => markerWF v && markerWFL vs
-end
-
-mutual
 theorem containsMarked_stripMarks : âˆ€ p : Payload, (stripMarks p).containsMarked = false
   | .marked _ r => by simpa [stripMarks] using containsMarked_stripMarks r
   | .seq vs => by simpa [stripMarks, containsMarked] using containsMarkedL_stripMarksL vs
